@@ -714,7 +714,7 @@ def replay_body(runner, q, tables, fails, corr, il, ml, extra=""):
 
 def run(ctx):
     ctx.assumptions = ASSUME
-    ok, out = common.lean_obligations(ctx, MODULE, ["TriompheModel.Props.TraitCensus"])
+    ok, out = common.lean_obligations(ctx, MODULE, ["TriompheModel.Props.TraitCensus", "TriompheModel.Props.CmpImplCensus"])
 
     impl_bin, bout = common.cargo_build_bin(ctx, "cmp")
     if impl_bin is None:
